@@ -12,6 +12,8 @@ pub mod rounded_rectangle;
 pub mod sector;
 mod styled;
 pub mod triangle;
+#[cfg(feature = "verif_hooks")]
+pub mod verif_hooks;
 
 #[doc(no_inline)]
 pub use self::rectangle::Rectangle;
